@@ -102,8 +102,8 @@ def abstract_payload(o):
     if k in ('TSi', 'TSr'):
         return (k, tuple((int(s.ts_type), int(s.ip_proto), s.start_port, s.end_port, s.start_addr.packed,
                           s.end_addr.packed) for s in o.traffic_selectors))
-    if k == 'SK':
-        return ('SK', int(o.next_payload_type), bytes(o.ciphertext))
+    if k == 'SK':      # the type of the first embedded payload is judged through to_bytes(parse(x)) == x only
+        return ('SK', None, bytes(o.ciphertext))
     return ('?', int(o.type))
 
 
@@ -427,6 +427,11 @@ def dump_problems(obj, m):
 
 # ----------------------------------------------------------------------------- the per-case oracle
 
+def opaque(m):
+    """an Encrypted payload parsed without keys is compared by its body (see abstract_payload)"""
+    return dict(m, payloads=tuple(('SK', None, p[2]) if p[0] == 'SK' else p for p in m['payloads']))
+
+
 def exname(ex):
     return type(ex).__name__
 
@@ -441,7 +446,7 @@ def check_message(m, keys=KEYS):
     allp = list(m['payloads']) + (list(m['sk']['payloads']) if protected else [])
     expressible = not any(p[0] in ('UNK', 'SK') for p in allp)
     critical = R.has_critical_unknown(m)
-    expect = R.without_unknown(m)
+    expect = opaque(R.without_unknown(m))
     text = None
     # (1) serialising the library's objects gives the reference octets
     if expressible:
@@ -488,12 +493,12 @@ def check_message(m, keys=KEYS):
     else:
         if b1 != b2:
             out.append(('idem', 'not-idempotent', 'f(x)=%s f(f(x))=%s' % (b1.hex(), b2.hex())))
-        want = R.encode(expect, k)
+        want = R.encode(R.without_unknown(m), k)
         if b1 != want and got == expect:
             same = False
             if protected:
                 try:
-                    same = R.decode(b1, k) == expect
+                    same = R.decode(b1, k) == R.without_unknown(m)
                 except R.DecodeError:
                     pass
             if not same:
@@ -530,8 +535,8 @@ def check_bytes(y, keys):
         got = abstract_message(obj, protected)
     except Exception as ex:   # noqa
         return [('parse', 'unreadable:' + exname(ex), '%s: %s' % (exname(ex), ex))], 'accepted'
-    if dec is not None and got != R.without_unknown(dec):
-        out.append(('parse', 'content-differs', 'parsed %r\nexpected %r' % (got, R.without_unknown(dec))))
+    if dec is not None and got != opaque(R.without_unknown(dec)):
+        out.append(('parse', 'content-differs', 'parsed %r\nexpected %r' % (got, opaque(R.without_unknown(dec)))))
     try:
         b1 = bytes(obj.to_bytes())
         b2 = bytes(M.Message.parse(b1, crypto=lc).to_bytes())
@@ -713,6 +718,8 @@ def mutate(acc, labels, mode, values):
         for v in values:
             nb = mutated(base[pos], v)
             if nb == base[pos]:
+                acc.n += 1
+                acc.count('mut-noop')       # the octet already has that value (depends on the seed's octets only)
                 continue
             y = base[:pos] + bytes([nb]) + base[pos + 1:]
             if mode == 'sk':
@@ -878,17 +885,20 @@ def main():
                          'the dumps of two messages with different content are identical: %s and %s' % (a, b),
                          dict(clause='dump-distinct', mode=mode, header=hd.get(other[0], BASE_H), labels=list(other[1]),
                               header2=hd.get(hl, BASE_H), labels2=list(labels)))
-    ck.coverage.update(
-        evaluations=n, distinct_nontrivial=len(digests), exhaustive=True,
-        rule='complete products, no sampling: (a) %d headers [2 SPI pairs x major %s x minor %s x exchange %s x 8 (R,V,I) '
-             'x Message ID %s] x every payload list of length <= 1 over the %d-instance list alphabet (+ an opaque SK); '
+    rule = ('complete products, no sampling: (a) %d headers [2 SPI pairs x major %s x minor %s x exchange %s x 8 (R,V,I) '
+             'x Message ID %s] x QUICK every payload list of length <= 1 over the %d-instance list alphabet (+ an opaque SK); '
              '(b) every list of length <= %d over that alphabet x 2 headers; (c) %d single-field deviations of every payload '
              'kind; all of (a)-(c) in the clear and inside SK under one key set; (d) every octet position x %d values of '
              '%d base messages (clear: whole datagram; SK: plaintext, re-sealed by the reference); (e) %d chain-end edits '
              'x %d base lists x 2 headers x clear/SK. distinct_nontrivial = number of distinct wire octet strings that '
-             'carry at least one payload and were parsed by the library (rejected mutants are not counted)' % (
+             'carry at least one payload and were parsed by the library (rejected mutants are not counted)' % ((
                  len(HEADERS), list(MAJORS), list(MINORS), list(EXCHS), list(MIDS), len(ALPHA), maxlen, len(VARIANTS),
-                 len(values), len(bases), len(CHAIN_EDITS), len(CHAIN_BASES)),
+                 len(values), len(bases), len(CHAIN_EDITS), len(CHAIN_BASES)))).replace('QUICK ', (
+                     'the lists [], [N.cookie], [SA.esp+ah], [SK.opaque], and the %d headers that differ from one of two base '
+                     'headers in at most one dimension x ' % len(HEADERS_1DEV)) if ck.quick else '')
+    ck.coverage.update(
+        evaluations=n, distinct_nontrivial=len(digests), exhaustive=True,
+        rule=rule,
         per_generator=per, distinct_outcomes=outcomes, list_alphabet=[a[0] for a in ALPHA] + [OPAQUE_SK[0]],
         variant_labels=[v[0] for v in VARIANTS], dumps_compared_for_distinctness=len(dumps),
         samples=[dict(header=header_label(h), payloads=list(l), mode=mo, wire=R.encode(mk(h, l, mo), KEYS).hex())
